@@ -975,9 +975,376 @@ class C10(Base):
             yield query_history("C10", seed, i, mk, schema=A_SCHEMA, payload=a_payload, shards=(2, 3, 1))
 
 
+
+# ====================================================================== C13
+
+import hmac as _hmac, hashlib as _hashlib
+
+
+def sign(key, msg):
+    return _hmac.new(key.encode(), msg.encode(), _hashlib.sha256).hexdigest()
+
+
+ADMIN, ADMIN_KEY = "admin", "adminkey-0123456789"
+ROLE_READ = {"admin", "read-only", "viewer", "editor"}
+ROLE_WRITE = {"admin", "editor", "write-only"}
+
+
+class AuthModel:
+    def __init__(self):
+        self.users = {ADMIN: {"key": ADMIN_KEY, "active": True, "roles": ["admin"]}}
+        self.perms = {}      # (user, type) -> {"read": bool, "write": bool}
+
+    def is_admin(self, u):
+        return "admin" in self.users[u]["roles"]
+
+    def can_read(self, u, t):
+        p = self.perms.get((u, t))
+        return bool(set(self.users[u]["roles"]) & ROLE_READ) or bool(p and p["read"])
+
+    def can_write(self, u, t):
+        p = self.perms.get((u, t))
+        return bool(set(self.users[u]["roles"]) & ROLE_WRITE) or bool(p and p["write"])
+
+
+class C13(Base):
+    id = "C13"
+    technique = "deterministic simulation: real auth gate + dispatcher driven over simulated connections, grant/revoke/expiry histories on the simulated clock; access-control model oracle"
+    level_text = ("bypass_auth=false with a bootstrap admin. Simulated connections run the listener's real authentication gate "
+                  "(check_auth) and the real dispatcher. An admin creates users (ids include the reserved-looking ones the system "
+                  "accepts), assigns roles or per-type permissions, grants and revokes; users issue every command kind (STORE, QUERY, "
+                  "REPLAY, sequence query, REMEMBER, SHOW, FLUSH, DEFINE, user/permission management) through the three "
+                  "authentication forms with valid, wrong-key, truncated, replayed-for-another-command and unknown-user credentials, "
+                  "with session tokens across simulated-clock expiry and across key revocation, payloads containing ' TOKEN ' and "
+                  "':' substrings, and restarts (permissions are persisted). A small access-control model decides for every request "
+                  "whether it may execute; a request the model denies must be answered with an error (it must not execute).")
+    clauses = {"unauthenticated-executed", "unauthorized-read", "unauthorized-write", "nonadmin-admin-op", "revoked-still-works",
+               "expired-token-works", "panic"}
+    budgets = {"quick": {"histories": 80}, "thorough": {"histories": 3000}}
+    opts = {}
+
+    @staticmethod
+    def nontrivial(plan, res):
+        return res["stats"].get("auth_requests", 0) > 5
+
+    @staticmethod
+    def gen(seed, tier):
+        for i in range(C13.budgets[tier]["histories"]):
+            rng = rnd("C13", seed, i)
+            expiry = 60
+            cfg = {"shard_count": rng.choice([1, 2]), "fill_factor": 2, "event_per_zone": 2, "segments_per_merge": 2,
+                   "wal": {"flush_each_write": True, "buffered": False},
+                   "auth": {"bypass_auth": False, "initial_admin_user": ADMIN, "initial_admin_key": ADMIN_KEY,
+                            "session_token_expiry_seconds": expiry}}
+            h = H(seed, "C13", cfg, uid_salt=f"C13-{seed}-{i}")
+            h.life(end="shutdown")
+            m = AuthModel()
+            types = ["ta", "tb"]
+            conn_state = {}     # conn -> {"user": u, "token_step": n, "token_wall": ms}
+            next_conn = [1]
+
+            def issue(user, cmd, meta, form=None, bad=None, conn=None):
+                """Render `cmd` with an authentication form; returns the step index."""
+                form = form or rng.choice(["inline", "conn", "token"])
+                if form == "token" and bad in ("wrongkey", "othercmd"):
+                    bad = "truncated"     # the only way to spoil a token request is the token itself
+                key = m.users[user]["key"] if user in m.users else "nokey"
+                if bad == "wrongkey":
+                    key = key + "x"
+                if form == "inline" or bad == "unknown":
+                    c = conn if conn is not None else 100 + next_conn[0]
+                    next_conn[0] += 1
+                    sig = sign(key, cmd)
+                    if bad == "truncated":
+                        sig = sig[:40]
+                    if bad == "othercmd":
+                        sig = sign(key, "PING")
+                    text = f"{user}:{sig}:{cmd}"
+                    meta = dict(meta, form="inline", bad=bad, user=user)
+                    return h.cmd(text, meta, conn=c)
+                # connection / token forms need an authenticated connection of that user
+                c = None
+                for cid, stt in conn_state.items():
+                    if stt["user"] == user:
+                        c = cid
+                if c is None:
+                    c = next_conn[0]
+                    next_conn[0] += 1
+                    stp = h.cmd(f"AUTH {user}:{sign(m.users[user]['key'], user)}",
+                                {"kind": "auth", "user": user, "expect_ok": m.users[user]["active"]}, conn=c)
+                    conn_state[c] = {"user": user, "token_step": stp, "token_wall": h.wall_now()}
+                stt = conn_state[c]
+                if form == "conn":
+                    sig = sign(key, cmd)
+                    if bad == "truncated":
+                        sig = sig[:40]
+                    if bad == "othercmd":
+                        sig = sign(key, "PING")
+                    meta = dict(meta, form="conn", bad=bad, user=user, auth_step=stt["token_step"])
+                    return h.cmd(f"{sig}:{cmd}", meta, conn=c)
+                # token form: send it on a fresh, unauthenticated connection so that only the token can authenticate it
+                tc = 200 + next_conn[0]
+                next_conn[0] += 1
+                tok = "{{TOKEN:%d}}" % stt["token_step"]
+                if bad == "truncated":
+                    tok = "deadbeef"
+                meta = dict(meta, form="token", bad=bad, user=user, auth_step=stt["token_step"], token_wall=stt["token_wall"])
+                return h.cmd(f"{cmd} TOKEN {tok}", meta, conn=tc)
+
+            # --- set-up by the admin
+            issue(ADMIN, 'DEFINE ta FIELDS {"k":"int","s":"string"}', {"kind": "authcmd", "need": "admin"}, form="inline")
+            issue(ADMIN, 'DEFINE tb FIELDS {"k":"int","s":"string"}', {"kind": "authcmd", "need": "admin"}, form="inline")
+            names = rng.sample(["u1", "u2", "svc-1", "bypass", "no-auth", "Admin", "admin2", "root"], rng.randrange(2, 5))
+            for u in names:
+                roles = rng.choice([[], [], ["read-only"], ["write-only"], ["editor"], ["viewer"]])
+                key = f"key-{u}"
+                cmd = f'CREATE USER {u} WITH KEY "{key}"' + (f' WITH ROLES [{", ".join(chr(34)+r+chr(34) for r in roles)}]' if roles else "")
+                issue(ADMIN, cmd, {"kind": "authcmd", "need": "admin", "creates": u}, form="inline")
+                m.users[u] = {"key": key, "active": True, "roles": roles}
+                if not roles and rng.random() < 0.7:
+                    t = rng.choice(types)
+                    what = rng.choice(["READ", "WRITE", "READ,WRITE"])
+                    issue(ADMIN, f"GRANT {what} ON {t} TO {u}", {"kind": "authcmd", "need": "admin"}, form="inline")
+                    m.perms[(u, t)] = {"read": "READ" in what, "write": "WRITE" in what}
+            # seed data as admin
+            for _ in range(rng.randrange(2, 6)):
+                k = h.new_k()
+                t = rng.choice(types)
+                issue(ADMIN, f'STORE {t} FOR c{rng.randrange(2)} PAYLOAD {{"k":{k},"s":"seed"}}', {"kind": "authcmd", "need": ("write", t)}, form="inline")
+            if rng.random() < 0.5:
+                issue(ADMIN, "FLUSH", {"kind": "authcmd", "need": "auth"}, form="inline")
+            remembered = False
+            # --- requests
+            for _ in range(rng.randrange(10, 30)):
+                x = rng.random()
+                users = [u for u in names]
+                u = rng.choice(users)
+                bad = rng.choice([None, None, None, None, "wrongkey", "truncated", "othercmd"])
+                if x < 0.06:
+                    # revoke a key, then the user tries again
+                    issue(ADMIN, f"REVOKE KEY {u}", {"kind": "authcmd", "need": "admin"}, form="inline")
+                    m.users[u]["active"] = False
+                    continue
+                if x < 0.12 and not m.users[u]["roles"]:
+                    t = rng.choice(types)
+                    if (u, t) in m.perms and rng.random() < 0.6:
+                        issue(ADMIN, f"REVOKE READ,WRITE ON {t} FROM {u}", {"kind": "authcmd", "need": "admin"}, form="inline")
+                        m.perms.pop((u, t), None)
+                    else:
+                        what = rng.choice(["READ", "WRITE", "READ,WRITE"])
+                        issue(ADMIN, f"GRANT {what} ON {t} TO {u}", {"kind": "authcmd", "need": "admin"}, form="inline")
+                        old = m.perms.get((u, t), {"read": False, "write": False})
+                        m.perms[(u, t)] = {"read": old["read"] or "READ" in what, "write": old["write"] or "WRITE" in what}
+                    continue
+                if x < 0.16:
+                    h.barrier(wall_advance_ms=rng.choice([10_000, (expiry + 5) * 1000]))
+                    continue
+                if x < 0.19:
+                    h.end(rng.choice(["shutdown", "kill"]))
+                    h.life(end="shutdown")
+                    conn_state.clear()
+                    continue
+                t = rng.choice(types)
+                kind = rng.choice(["store", "store", "query", "query", "count", "replay", "seq", "remember", "show", "flush", "define", "create", "grant", "list"])
+                if kind == "store":
+                    k = h.new_k()
+                    s_val = rng.choice(["v", "a TOKEN b", "x:y:z", "u1:abc:STORE"])
+                    cmd, need = f'STORE {t} FOR c{rng.randrange(2)} PAYLOAD {{"k":{k},"s":"{s_val}"}}', ("write", t)
+                elif kind == "query":
+                    cmd, need = f"QUERY {t}", ("read", t)
+                elif kind == "count":
+                    cmd, need = f"QUERY {t} COUNT", ("read", t)
+                elif kind == "replay":
+                    cmd, need = f"REPLAY {t} FOR c{rng.randrange(2)}", ("read", t)
+                elif kind == "seq":
+                    o = "tb" if t == "ta" else "ta"
+                    cmd, need = f"QUERY {t} FOLLOWED BY {o} LINKED BY k", ("read2", t, o)
+                elif kind == "remember":
+                    name = f"m{h.new_k()}"
+                    cmd, need = f"REMEMBER QUERY {t} AS {name}", ("read", t)
+                    remembered = remembered or (name, t)
+                elif kind == "show":
+                    if not remembered:
+                        continue
+                    cmd, need = f"SHOW {remembered[0]}", ("read", remembered[1])
+                elif kind == "flush":
+                    cmd, need = "FLUSH", "auth"
+                elif kind == "define":
+                    cmd, need = f'DEFINE tz{h.new_k()} FIELDS {{"k":"int"}}', "admin"
+                elif kind == "create":
+                    cmd, need = f'CREATE USER x{h.new_k()} WITH KEY "kk"', "admin"
+                elif kind == "grant":
+                    cmd, need = f"GRANT READ,WRITE ON {t} TO {u}", "admin"
+                else:
+                    cmd, need = "LIST USERS", "admin"
+                form = rng.choice(["inline", "conn", "token"])
+                if not m.users[u]["active"] and form != "inline":
+                    # a revoked user cannot open a new authenticated connection; use what it has, else inline
+                    if not any(st_["user"] == u for st_ in conn_state.values()):
+                        form = "inline"
+                allowed = m.users[u]["active"] and bad is None
+                if need == "admin":
+                    authz = m.is_admin(u)
+                elif need == "auth":
+                    authz = True
+                elif need[0] == "read":
+                    authz = m.can_read(u, need[1])
+                elif need[0] == "read2":
+                    authz = m.can_read(u, need[1]) and m.can_read(u, need[2])
+                else:
+                    authz = m.can_write(u, need[1])
+                issue(u, cmd, {"kind": "authcmd", "need": need if isinstance(need, str) else list(need), "authenticated": allowed,
+                               "authorized": authz, "active": m.users[u]["active"], "expiry_s": expiry, "cmdkind": kind}, form=form, bad=bad)
+            yield h.done()
+
+
+
+# ====================================================================== C14
+
+class C14(Base):
+    id = "C14"
+    technique = "deterministic simulation: REMEMBER/SHOW vs live query in the same frozen state, histories with shared high-water seconds (scripted clock), flush/compaction/restart between SHOWs"
+    level_text = ("Seeded histories in which events arrive before REMEMBER, between REMEMBER and SHOW and between SHOWs; the simulated "
+                  "wall clock is frozen or stepped in sub-second ticks so that new events share the stored high-water second (and, on "
+                  "another shard, carry a smaller event id); FLUSH, compaction rounds and clean/kill restarts between SHOWs move "
+                  "already materialised events into new segments. In one frozen state the multiset of events of SHOW m must equal the "
+                  "set QUERY q returns (each once); SHOW twice without new data must return the same rows; REMEMBER under an existing "
+                  "name must be rejected and leave the old one unchanged.")
+    clauses = {"show-missing", "show-extra", "show-duplicate", "show-unstable", "remember-duplicate-accepted", "show-error",
+               "frames", "read-error", "panic"}
+    budgets = {"quick": {"histories": 100}, "thorough": {"histories": 3000}}
+
+    @staticmethod
+    def nontrivial(plan, res):
+        return res["stats"].get("reads:show", 0) > 0
+
+    @staticmethod
+    def gen(seed, tier):
+        for i in range(C14.budgets[tier]["histories"]):
+            rng = rnd("C14", seed, i)
+            cfg = {"shard_count": rng.choice([1, 2, 3]), "fill_factor": rng.choice([1, 2, 3]), "event_per_zone": rng.choice([1, 2, 3]),
+                   "segments_per_merge": 2, "wal": {"flush_each_write": True, "buffered": False}}
+            h = H(seed, "C14", cfg, uid_salt=f"C14-{seed}-{i}")
+            tick = rng.choice([0, 0, 250, 400, 1000])
+            h.life(end="shutdown", tick_ms=tick)
+            h.define("a", {"k": "int", "s": "string", "n": "int"})
+            ctxs = [f"c{j}" for j in range(rng.choice([1, 2, 4]))]
+            qpool = [({"type": "a"}, "all"), ({"type": "a", "where": ("cmp", "s", "=", "x")}, "where:s="),
+                     ({"type": "a", "where": ("cmp", "n", ">=", 2)}, "where:n>="), ({"type": "a", "ctx": ctxs[0]}, "for"),
+                     ({"type": "a", "ret": ["s", "k"]}, "return"),
+                     ({"type": "a", "where": ("and", ("cmp", "s", "=", "x"), ("cmp", "n", "<", 3))}, "where:and")]
+            mats = []     # (name, q, feat)
+
+            def st():
+                k = h.new_k()
+                h.store("a", rng.choice(ctxs), {"k": k, "s": rng.choice(["x", "y"]), "n": rng.randrange(0, 5)}, k=k)
+
+            def remember():
+                q, feat = rng.choice(qpool)
+                name = f"m{len(mats)}"
+                from .qmodel import query_text
+                h.cmd(f"REMEMBER {query_text(q)} AS {name}", {"kind": "remember", "name": name, "q": q, "feat": "remember:" + feat, "dup": False})
+                mats.append((name, q, feat))
+
+            def cp(tag):
+                h.step({"op": "barrier", "meta": {"kind": "checkpoint", "tag": tag}})
+                for name, q, feat in mats:
+                    if rng.random() < 0.8:
+                        h.query(q, tag=tag, feat="live:" + feat)
+                        h.cmd(f"SHOW {name}", {"kind": "show", "name": name, "q": q, "tag": tag, "feat": "show:" + feat,
+                                                "fkey": h.cur["steps"][-1]["meta"]["fkey"]})
+                        if rng.random() < 0.3:
+                            h.cmd(f"SHOW {name}", {"kind": "show", "name": name, "q": q, "tag": tag, "feat": "show:" + feat,
+                                                    "fkey": h.cur["steps"][-2]["meta"]["fkey"], "again": True})
+                if mats and rng.random() < 0.2:
+                    name, q, feat = rng.choice(mats)
+                    from .qmodel import query_text
+                    h.cmd(f"REMEMBER {query_text(q)} AS {name}", {"kind": "remember", "name": name, "q": q, "feat": "remember:dup", "dup": True})
+                if rng.random() < 0.4 and len(mats) < 3:
+                    remember()
+            for _ in range(rng.randrange(0, 4)):
+                st()
+            remember()
+            layout_script(h, rng, st, rng.randrange(4, 14), cp)
+            yield h.done()
+
+
+
+# ====================================================================== C15
+
+class C15(Base):
+    id = "C15"
+    technique = "deterministic simulation: sequence queries over events placed across shards and tiers by the history (scripted clock for equal/distinct times); pair-matcher model + layout invariance"
+    level_text = ("Two event types with a link field whose values are shared by many events, by one side only, or absent; equal and "
+                  "distinct times produced by the scripted wall clock; event-prefixed WHERE conditions on either side; LIMIT; the "
+                  "events are spread over shards, memory, flushed and compacted segments and restarts by the history. Every returned "
+                  "pair must carry the same link value, respect the time relation (FOLLOWED BY: b at the same time or later; "
+                  "PRECEDED BY: strictly earlier) and both sides' conditions; the set of matched a-events must equal the reference "
+                  "matcher's; LIMIT bounds the number of sequences; answers are identical at every layout checkpoint.")
+    clauses = {"seq-bad-pair", "seq-missing", "seq-extra", "seq-limit", "seq-shape", "layout-variance", "frames", "read-error", "panic"}
+    budgets = {"quick": {"histories": 100}, "thorough": {"histories": 3000}}
+
+    @staticmethod
+    def nontrivial(plan, res):
+        return res["stats"].get("reads:seq", 0) > 0 and res["stats"].get("store_acked", 0) > 1
+
+    @staticmethod
+    def gen(seed, tier):
+        for i in range(C15.budgets[tier]["histories"]):
+            rng = rnd("C15", seed, i)
+            cfg = {"shard_count": rng.choice([1, 2, 3]), "fill_factor": rng.choice([1, 2, 3]), "event_per_zone": rng.choice([1, 2, 3]),
+                   "segments_per_merge": 2, "wal": {"flush_each_write": True, "buffered": False}}
+            h = H(seed, "C15", cfg, uid_salt=f"C15-{seed}-{i}")
+            h.life(end="shutdown", tick_ms=rng.choice([1000, 1000, 0, 500]))
+            h.define("pv", {"k": "int", "uid": "string", "page": "string"})
+            h.define("oc", {"k": "int", "uid": "string", "st": "string"})
+            uids = [f"u{j}" for j in range(rng.choice([2, 3, 5]))]
+            ctxs = [f"c{j}" for j in range(rng.choice([1, 2, 4]))]
+            queries = []
+            for _ in range(rng.randrange(3, 6)):
+                a, b = rng.choice([("pv", "oc"), ("oc", "pv")])
+                rel = rng.choice(["FOLLOWED BY", "PRECEDED BY"])
+                conds = []
+                feat = [rel.split()[0]]
+                if rng.random() < 0.4:
+                    conds.append(("pv", "page", rng.choice(["/checkout", "/home"])))
+                    feat.append("WHERE:pv")
+                if rng.random() < 0.4:
+                    conds.append(("oc", "st", rng.choice(["done", "open"])))
+                    feat.append("WHERE:oc")
+                lim = rng.choice([None, None, 1, 2])
+                if lim is not None:
+                    feat.append("LIMIT")
+                text = f"QUERY {a} {rel} {b} LINKED BY uid"
+                if conds:
+                    text += " WHERE " + " AND ".join(f'{t}.{f}="{v}"' for t, f, v in conds)
+                if lim is not None:
+                    text += f" LIMIT {lim}"
+                queries.append((text, {"kind": "seq", "a": a, "b": b, "rel": rel, "link": "uid", "conds": conds, "limit": lim,
+                                       "feat": "seq:" + "+".join(feat)}))
+
+            def st():
+                k = h.new_k()
+                extra = {}
+                if rng.random() < 0.3:
+                    extra["wall_advance_ms"] = rng.choice([0, 1000, 5000])
+                if rng.random() < 0.5:
+                    h.store("pv", rng.choice(ctxs), {"k": k, "uid": rng.choice(uids), "page": rng.choice(["/checkout", "/home"])}, k=k, **extra)
+                else:
+                    h.store("oc", rng.choice(ctxs), {"k": k, "uid": rng.choice(uids), "st": rng.choice(["done", "open"])}, k=k, **extra)
+
+            def cp(tag):
+                h.step({"op": "barrier", "meta": {"kind": "checkpoint", "tag": tag}})
+                for text, meta in queries:
+                    h.read_arrivals += 2 * h.nshards
+                    h.cmd(text, dict(meta, tag=tag))
+            layout_script(h, rng, st, rng.randrange(4, 16), cp)
+            yield h.done()
+
+
 # ====================================================================== registry
 
-PROFILES = {"C01": C01, "C02": C02, "C03": C03, "C04": C04, "C05": C05, "C07": C07, "C09": C09, "C10": C10, "C11": C11, "C12": C12, "C18": C18}
+PROFILES = {"C01": C01, "C02": C02, "C03": C03, "C04": C04, "C05": C05, "C07": C07, "C09": C09, "C10": C10, "C11": C11, "C12": C12, "C13": C13, "C14": C14, "C15": C15, "C18": C18}
 
 NOT_APPLICABLE = {
     "C08": "pure function of (zone value multiset, probe): no schedule, clock, fault or history in it; its end-to-end consequence is covered by C02's layout-invariance oracle",
@@ -985,7 +1352,7 @@ NOT_APPLICABLE = {
     "C17": "totality of parsing/dispatch is a pure function of the input string; no interleaving, crash or clock involved",
     "C20": "pure function of (result batch, renderer); no nondeterminism or fault surface",
 }
-for _p in ("C06","C13","C14","C15","C19"):
+for _p in ("C06","C19"):
     NOT_APPLICABLE.setdefault(_p, "check under construction in this session (claimed by DESIGN.md; profile not yet registered)")
 
 
